@@ -13,6 +13,8 @@ const PLUG: u32 = 1;
 
 fn check(r: &ExecResult, pol: Pol, cap: usize, parked: bool, via_dispatcher: bool) -> Vec<Finding> {
     let mut f = sanity(r);
+    // stop() was invoked while producers were still dispatching
+    let raced = rets(r, "dispatch").any(|d| d.i > first_stop_call(r));
     let p = pipe(r);
     // never waits on the queue
     for rec in &r.log {
@@ -42,7 +44,8 @@ fn check(r: &ExecResult, pol: Pol, cap: usize, parked: bool, via_dispatcher: boo
     // conservation against the metric (read after stop)
     if let Some(m) = rets(r, "get_metrics").last() {
         let dropped = m.st[1] as usize;
-        let total = burst.len() + rets(r, "dispatch").filter(|d| d.a as u32 == PLUG).count();
+        // StoreImpl::dispatch returns Ok exactly when it found the store open
+        let total = burst.iter().filter(|b| b.1 || via_dispatcher).count() + rets(r, "dispatch").filter(|d| d.a as u32 == PLUG).count();
         if p.order.len() + dropped != total {
             f.push(fnd(
                 "drop-conservation",
@@ -80,7 +83,7 @@ fn check(r: &ExecResult, pol: Pol, cap: usize, parked: bool, via_dispatcher: boo
                     }
                 }
             }
-        } else if !*ok {
+        } else if !*ok && !raced {
             f.push(fnd("drop-rejected-while-open", format!("dispatch({}) returned Err while the store was open", a)));
         }
     }
@@ -89,7 +92,7 @@ fn check(r: &ExecResult, pol: Pol, cap: usize, parked: bool, via_dispatcher: boo
 
 pub fn scenarios(tier: Tier) -> Vec<Scenario> {
     let mut v = vec![];
-    let mut add = |pol: Pol, cap: usize, n: usize, np: u32, via: bool, parked: bool, bound: u32| {
+    let mut add_x = |pol: Pol, cap: usize, n: usize, np: u32, via: bool, parked: bool, race: bool, bound: u32| {
         let mut spec = StoreSpec::new(1, cap, pol);
         spec.reducer_gate = parked;
         let mut prog = Program::new(spec);
@@ -118,18 +121,21 @@ pub fn scenarios(tier: Tier) -> Vec<Scenario> {
                 Op::Stop,
                 Op::GetMetrics(0),
             ]
+        } else if race {
+            vec![Op::SpawnAll, Op::Stop, Op::JoinAll, Op::GetMetrics(0)]
         } else {
             vec![Op::SpawnAll, Op::JoinAll, Op::Stop, Op::GetMetrics(0)]
         };
         prog = prog.main(main);
         v.push(scn(
-            format!("C06/{}/{}cap{}n{}P{}{}", if parked { "parked" } else { "free" }, pol.s(), cap, n, np, if via { "via" } else { "" }),
+            format!("C06/{}/{}cap{}n{}P{}{}{}", if parked { "parked" } else { "free" }, pol.s(), cap, n, np, if via { "via" } else { "" }, if race { "race" } else { "" }),
             prog,
             bound,
             opts_elide(),
             move |r, _| check(r, pol, cap, parked, via),
         ));
     };
+    let mut add = |pol: Pol, cap: usize, n: usize, np: u32, via: bool, parked: bool, bound: u32| add_x(pol, cap, n, np, via, parked, false, bound);
     for pol in [Pol::Oldest, Pol::Latest] {
         match tier {
             Tier::Quick => {
@@ -155,6 +161,16 @@ pub fn scenarios(tier: Tier) -> Vec<Scenario> {
                 add(pol, 2, 6, 3, false, false, 2);
                 add(pol, 2, 4, 2, true, false, 4);
             }
+        }
+    }
+    // stop() racing the producers: every dispatch that found the store open is still reduced
+    // once or counted as dropped once
+    for pol in [Pol::Oldest, Pol::Latest] {
+        add_x(pol, 1, 3, 2, false, false, true, 2);
+        if tier == Tier::Thorough {
+            add_x(pol, 2, 4, 2, false, false, true, 3);
+            add_x(pol, 1, 3, 3, false, false, true, 2);
+            add_x(pol, 1, 2, 1, false, false, true, 4);
         }
     }
     v
